@@ -12,11 +12,13 @@ tier = "quick"
 demo_pkg = None
 run_re = None
 store_as = n
+demo_tags = ""
 out = "/tmp/seed/%s-out" % pid
 for i, a in enumerate(args):
     if a == "--src": out = args[i+1]
     if a == "--store-as": store_as = args[i+1]
     if a == "--tier": tier = args[i+1]
+    if a == "--demo-tags": demo_tags = args[i+1]
     if a == "--demo-pkg": demo_pkg = args[i+1]
     if a == "--run": run_re = args[i+1]
 clone = "/dev/shm/repo-m"
@@ -43,7 +45,7 @@ if os.path.exists(demo):
     src = open(demo).read()
     m = re.findall(r"^func (Test\w+)\(", src, re.M)
     run = run_re or ("^(" + "|".join(m) + ")$")
-    demo_cmd = "go test -vet=off -count=1 -run '%s' %s" % (run, demo_pkg)
+    demo_cmd = "go test %s -vet=off -count=1 -run '%s' %s" % (("-tags " + demo_tags) if demo_tags else "", run, demo_pkg)
 else:
     demo_cmd = None
 def run_demo():
